@@ -166,7 +166,8 @@ STD_PANICKING = re.compile(
     r"|VecDeque::(<[^>]*>::)?(remove|swap_remove_back|insert|drain|split_off)$"
     r"|RefCell::(<[^>]*>::)?(borrow|borrow_mut)$"
     r"|Iterator::step_by$|::chunks$|::chunks_exact$|::windows$|::split_at$|::split_at_mut$"
-    r"|thread::Builder::spawn$")
+    r"|thread::Builder::spawn$"
+    r"|(Ord|f32|f64)::clamp$|::clamp$")
 
 
 def panic_sites(fl):
@@ -334,6 +335,12 @@ def check_panic_sites(rep, fl, rule="R20.2"):
             desc = desc[:160]
             if callee_matches(b.callee_of(t), "Vec::drain") and len(t["args"]) == 2 and "RangeFull" in ((t.get("argtys") or ["", ""])[1]):
                 cls = "drain(..) over the full range: no bound to violate"
+            if b.callee_of(t).endswith("::clamp") and len(t["args"]) == 3:
+                # clamp(min, max) asserts min <= max
+                lo_, hi_ = (norm(b.expand(norm(x_))) for x_ in b.call_args(t)[1:])
+                lo_m, hi_m = interval_max(b, lo_, facts), interval_min(b, hi_, facts)
+                if lo_m is not None and hi_m is not None and lo_m <= hi_m:
+                    cls = "clamp bounds ordered by construction (min <= %d <= %d <= max)" % (lo_m, hi_m)
             if callee_matches(b.callee_of(t), "Sub::sub") or (" as std::ops::Sub>::sub" in b.callee_of(t)):
                 # `x - y` on a type whose subtraction panics on underflow (Duration, Instant): every path to it
                 # has compared the same two operands and knows x >= y
